@@ -205,13 +205,8 @@ func TestC35Chain(t *testing.T) {
 			if len(writes) == 0 {
 				return
 			}
-			if s.name == "member-key" && name == "netmap/NewEpoch" {
-				// reported to the coordinator: processNewEpoch updates container placements in the
-				// Container contract (RunAlphabetNotaryScript) without asking the membership state
-				if rec.Known("C35:new-epoch-placement-update-without-membership-check") {
-					return
-				}
-			}
+			// (netmap/NewEpoch with a changed map used to update container placements without asking
+			// the membership state: confirmed on the original tree, fixed in /repo 3c41e32)
 			t.Fatalf("%s, state %s (index %d): %s sent %d write RPC(s): %s\nall RPCs: %s", s.name, mode, idx, name, len(writes), describeWrites(writes), neoproxy.Describe(calls))
 		}
 		memberWrote[name] += len(writes)
